@@ -207,7 +207,7 @@ func (c *MJGroupComponent) Render(w io.StringWriter) error {
 			columnComp.SetContainerWidth(groupWidthPx)
 
 			// MSO conditional TD for each column with correct width and vertical alignment
-			msoWidth := getPixelWidthString(childWidthPx)
+			msoWidth := columnComp.GetWidthAsPixel()
 			colVAlign := columnComp.GetAttributeWithDefault(columnComp, constants.MJMLVerticalAlign)
 
 			if err := html.RenderMSOGroupTDOpen(w, "", colVAlign, msoWidth, backgroundColor, isFirstColumn); err != nil {
